@@ -925,6 +925,14 @@ func (s *State) addCmd(c *cmd) {
 		pr2 := s.printNetspocCmd(sup)
 		s.setCmdConfMode(pr2)
 	} else if c.typ.sub != nil {
+		// Prevent toplevel command "webvpn" be given in mode
+		// (config-group-policy) or (config-username),
+		// since these modes also have a subcommand "webvpn".
+		if pr == "webvpn" && (strings.HasPrefix(s.subCmdOf, "group-policy ") ||
+			strings.HasPrefix(s.subCmdOf, "username ")) {
+
+			s.addChange("exit")
+		}
 		s.subCmdOf = pr
 	} else {
 		s.subCmdOf = ""
